@@ -1,4 +1,5 @@
 import OpacusLean.Generated.FloatBookkeeping
+import OpacusLean.Generated.CalibLoops
 import OpacusLean.Model.Calib
 import OpacusLean.Model.Binary64
 import OpacusLean.Lemmas.Binary64Steps
@@ -304,5 +305,38 @@ theorem generated_bookkeeping_eq_model (N L W epochs : Nat) (v : Variant) :
   ⟨rfl, rfl, rfl, rfl, rfl, rfl, rfl⟩
 
 end generatedTie
+
+/-! ## The tie to the source: one iteration of each `while` loop of `get_noise_multiplier`, re-translated on every run -/
+
+set_option linter.unusedTactic false in
+set_option linter.unreachableTactic false in
+/-- the model's `doubling` and `bisect` (the loops `calibration_sound_*` and the termination theorems are about) unfold to
+exactly the iterations written in the source (`Generated/CalibLoops.lean`: guard, arithmetic, the ε query and its position
+before the `MAX_SIGMA` test, which variables a branch updates), started from `sigma_low, sigma_high = 0, 10`, returning
+`sigma_high` -/
+theorem generated_calibration_loops_eq_model (eps : ℝ → ℝ) (target tol maxSigma : ℝ) (fuel : ℕ) (lo hi epsHi : ℝ)
+    (log : List ℝ) :
+    doubling eps target maxSigma (fuel + 1) hi epsHi log
+      = Opacus.Generated.Calib.growIter eps target maxSigma hi epsHi log
+          (fun l => Dbl.done hi epsHi l) (fun l => Dbl.budgetTooLow l)
+          (fun h e l => doubling eps target maxSigma fuel h e l) ∧
+    bisect eps target tol (fuel + 1) lo hi epsHi log
+      = Opacus.Generated.Calib.bisectIter eps target tol lo hi epsHi log
+          (fun l => (⟨.ok hi, l⟩ : Out ℝ)) (fun a b c l => bisect eps target tol fuel a b c l) ∧
+    Opacus.Generated.Calib.initLow = 0 ∧ Opacus.Generated.Calib.initHigh = 10 ∧
+    Opacus.Generated.Calib.returned = "sigma_high" := by
+  refine ⟨?_, ?_, by decide, by decide, by decide⟩
+  · first
+    | rfl
+    | (simp only [doubling, Opacus.Generated.Calib.growIter, gt_iff_lt]; done)
+    | (simp only [doubling, Opacus.Generated.Calib.growIter, gt_iff_lt]; ring_nf; done)
+    | (simp only [doubling, Opacus.Generated.Calib.growIter, gt_iff_lt, ge_iff_le]
+       split_ifs <;> first | rfl | (congr 1 <;> ring_nf) | simp_all | (exfalso; linarith))
+  · first
+    | rfl
+    | (simp only [bisect, Opacus.Generated.Calib.bisectIter, gt_iff_lt]; done)
+    | (simp only [bisect, Opacus.Generated.Calib.bisectIter, gt_iff_lt]; ring_nf; done)
+    | (simp only [bisect, Opacus.Generated.Calib.bisectIter, gt_iff_lt, ge_iff_le]
+       split_ifs <;> first | rfl | (congr 1 <;> ring_nf) | simp_all | (exfalso; linarith))
 
 end Opacus.C08
